@@ -112,6 +112,29 @@ def worker(args, scratch):
             bump("port_reuse_fresh_record" if fresh else "port_reuse_no_record")
             with lock:
                 res["nontrivial"].append(common.sha(["reuse", fresh, a.user, b.user, pair % 7]))
+        # ---- history 4: an attributed connection that never sends a request; its record must still be consumed at accept
+        for k in range(args["pairs"] // 3):
+            a = r.choice(idents)
+            conn = w.open("imds", a)
+            port = conn.src_port
+            t0 = time.time()
+            while standin.present(w.vdir, port) and time.time() - t0 < 2.0:
+                time.sleep(0.005)
+            if standin.present(w.vdir, port):
+                viol("record-not-consumed-at-accept", {"port": port, "history": "attributed connection accepted, no request sent, 2 s later the record is still in the map"})
+            conn.close(abort=True)
+            b = r.choice(idents)
+            try:
+                connb = w.open(record=False, src_port=port)
+                do_requests(connb, b, "c07-%d-s%d-B" % (args["shard"], k), r.randrange(1, 3), expect_unattributed=True)
+                connb.close()
+            except OSError:
+                bump("port_reuse_bind_failed")
+            except Exception as e:  # noqa
+                viol("no-response-on-reused-port", {"port": port, "err": repr(e)})
+            bump("silent_connection_then_port_reuse")
+            with lock:
+                res["nontrivial"].append(common.sha(["silent", a.user, b.user, k % 5]))
         # the event log must show lookup-hit followed by remove-hit for every attributed port
         evs = standin.events(w.vdir)
         hits = {}
